@@ -256,12 +256,20 @@ func runC07(c *core.Ctx) {
 		for _, b := range []uint64{1 << 31, 1 << 53, 1 << 62, 1<<63 + 5, ^uint64(0)} {
 			extra = append(extra, c07Case{Shape: chain3, Sel: "all-d10", Place: place, Budget: b, Needed: 3, Variant: "huge-budget"})
 		}
+		if strings.Contains(place, "<") {
+			// a small limit next to one beyond the signed range: the small one still wins
+			for _, o := range []uint64{1 << 62, 1 << 63, 1<<63 + 5, ^uint64(0)} {
+				for _, b := range []uint64{2, 3} {
+					extra = append(extra, c07Case{Shape: chain3, Sel: "all-d10", Place: place, Budget: b, Other: o, Needed: 3, Variant: "small-next-to-huge"})
+				}
+			}
+		}
 		for _, cs := range extra {
 			idx++
 			if !c.Mine(idx) {
 				continue
 			}
-			if strings.Contains(place, "<") {
+			if strings.Contains(place, "<") && cs.Other == 0 {
 				cs.Other = cs.Budget + 2
 				if cs.Other < cs.Budget {
 					cs.Other = ^uint64(0)
